@@ -30,6 +30,7 @@ package netlist
 // Append normalises each new prefix to a masked IPv6 prefix covering exactly the
 // same addresses (IPv4 addresses being their v4-mapped form) and appends them.
 //@ func (list *List) Append [C13]
+//@   log listAppend
 //@   requires list != nil
 //@   requires forall i int :: 0 <= i && i < len(newNet) ==> newNet[i].bits >= 0
 //@   requires len(newNet) > 0 ==> newNet.ref != list.e.ref
@@ -92,3 +93,8 @@ package netlist
 //@   requires list.sorted ==> repSorted(list)
 //@   panics when !list.sorted
 //@   ensures result == (addr.valid && covers(list, addr.v))
+
+// Any address set behind the Matcher interface (read-only).
+//@ interface Matcher.Match
+//@   log MatchI
+//@   params self, addr
